@@ -75,6 +75,9 @@ type scn struct {
 	proposals    []string
 	step         int
 	inSetup      bool
+	relaySet     map[int]bool // validator indexes in the trust root currently stored for the other BitXHub (observed)
+	relayN       int
+	icCum        uint64      // C09: interchain transactions counted over all blocks (incl. the prologue)
 	prevRefDump  [][2]string // state store of the reference replica after the previous block (only kept when there are other replicas)
 }
 
@@ -375,6 +378,8 @@ func (s *scn) apply(st CStep) {
 		s.applyRelay(st)
 	case "gopen", "gchild", "grecv":
 		s.applyGroup(st)
+	case "relaytrust":
+		s.applyRelayTrust(st)
 	default:
 		s.applyExtra(st)
 	}
@@ -639,6 +644,17 @@ func (s *scn) flush() *blockResult {
 	s.ibtp.afterBlock(h, txs, metas, ref)
 	s.grp.afterBlock(h, txs, metas, ref)
 	s.afterBlockExtra(h, txs, metas, ref)
+	s.checkRouter(h, txs, ref)
+	if s.cfg.Relay > 0 && !s.inSetup {
+		s.observeRelaySet()
+	}
+	if s.prop == "C09" {
+		if s.inSetup {
+			s.icCum = s.reps[0].lg.GetChainMeta().InterchainTxCount
+		} else {
+			s.checkStoredChain(s.reps[0], h, "reference")
+		}
+	}
 	if s.twin != nil {
 		s.twinCheck(h, ev, txs, metas, ref)
 	}
@@ -776,10 +792,13 @@ func (s *scn) applyRelay(st CStep) {
 	pm := s.ibtp.pair(from, to)
 	ib := &pb.IBTP{From: from, To: to, Type: pb.IBTP_INTERCHAIN, TimeoutHeight: st.T}
 	ib.Index = s.ibtp.pickIndex(pm.reqSubmitted(), st.Idx)
-	n := s.cfg.Relay
-	proof, distinct := relayProof(ib, pb.TransactionStatus_BEGIN, st.Signers, n)
+	if s.relaySet == nil {
+		s.observeRelaySet()
+	}
+	n := s.relayN
+	proof, distinct := relayProof(ib, pb.TransactionStatus_BEGIN, st.Signers, s.relaySet)
 	sender := s.users[1%len(s.users)]
-	valid := distinct > (n-1)/3
+	valid := n > 0 && distinct > (n-1)/3
 	m := &txMeta{kind: "relay", ibtp: ib, sender: sender, proofOK: valid, note: fmt.Sprintf("signers=%d/%d distinct-registered=%d", len(st.Signers), n, distinct)}
 	var tx *pb.BxhTransaction
 	switch st.Proof {
